@@ -64,8 +64,18 @@ def gen_cases(tier, seed):
         c['childless_node'] = True
         c.pop('flatten', None)
         cases.append(c)
-    for c in cases:
+    for i, c in enumerate(cases):
         c['order_seed'] = int(rng.integers(0, 2 ** 31))
+        # stored numeric type of the query matrix
+        m = i % 8
+        if m in (1, 5):
+            c['x_dtype'] = 'float32'
+        elif m == 3 and c['normalization'] != 'raw' \
+                and c['encoding'] == 'dense':
+            c['x_dtype'] = 'float16'
+        elif m in (2, 6) and c['normalization'] == 'raw':
+            c['x_dtype'] = str(rng.choice(['int32', 'int64', 'uint32',
+                                           'uint64']))
     return cases
 
 
@@ -215,6 +225,7 @@ def run_case(spec, work):
         counters['runs_with_out_of_order_completion'] = 1
     counters['workers_observed'] = len(order)
     feats = mapcases.features_of(spec)
+    feats['dtype'] = spec.get('x_dtype', 'float64')
     feats['mode'] = spec.get('mode', 'run_mapping')
     return {'violations': viol, 'counters': counters,
             'features': feats, 'nontrivial': True, 'sample': sample}
